@@ -355,7 +355,15 @@ def _initcap_taint(ctx, b, seeds):
                     elif k == 'unop':
                         t_ = op_t(rv['a'])
                     elif k == 'aggr':
-                        t_ = any(op_t(o) for o in rv['ops'])
+                        names = None
+                        if rv.get('kind') == 'adt':
+                            adt = prog.adts.get(norm(rv.get('adt') or ''))
+                            if adt and adt['kind'] == 'Struct':
+                                names = [f['name'] for f in adt['variants'][0]['fields']]
+                        # a struct field that is itself called initial_capacity carries the value by name (reads of it are seeds): the
+                        # struct as a whole is not "a value computed from initial_capacity"
+                        t_ = any(op_t(o) and not (names and i < len(names) and ALIASES.get(names[i], names[i]) == 'initial_capacity')
+                                 for i, o in enumerate(rv['ops']))
                 else:
                     t = d[3]
                     targets, ext, passed = prog.call_targets(b, t)
